@@ -156,22 +156,66 @@ def listSet {α} : List α → Nat → α → List α
   | _ :: xs, 0, a => a :: xs
   | x :: xs, n + 1, a => x :: listSet xs n a
 
+/-- `skip(r, l)` (discard.go) -/
+def skipN (l : Int) (bs : Bytes) : Outcome Bytes :=
+  match next l bs with
+  | .ok (_, r) => .ok r
+  | .err => .err | .panic => .panic | .stuck => .stuck | .fuel => .fuel
+
+/-- skip over a varint -/
+def skipVar (bs : Bytes) : Outcome Bytes :=
+  match readVarint bs with
+  | .ok (_, r) => .ok r
+  | .error _ => .err
+
+/-- skip over a length-prefixed byte string (`StringCodec.Skip` / `BytesCodec.Skip`) -/
+def skipLen (bs : Bytes) : Outcome Bytes :=
+  match readVarint bs with
+  | .ok (l, r) => skipN l r
+  | .error _ => .err
+
+@[inline] def Outcome.bind {α β : Type} (o : Outcome α) (f : α → Outcome β) : Outcome β :=
+  match o with
+  | .ok a => f a
+  | .err => .err
+  | .panic => .panic
+  | .stuck => .stuck
+  | .fuel => .fuel
+
+instance : Monad Outcome where
+  pure := .ok
+  bind := Outcome.bind
+
 /-- varint as the codecs use it: any error of `ReadBuf.Varint` is an error of the codec -/
 def rdVarint (bs : Bytes) : Outcome (Int × Bytes) :=
   match readVarint bs with
   | .ok p => .ok p
   | .error _ => .err
 
-/-- the block header shared by array.go / map.go Read: returns the item count of the block -/
+/-- `IntCodec[T].Read` -/
+def rdInt (w : Nat) (bs : Bytes) : Outcome (Int × Bytes) :=
+  match readInt w bs with
+  | .ok p => .ok p
+  | .error _ => .err
+
+/-- `ReadBuf.ReadByte` -/
+def rdByte : Bytes → Outcome (UInt8 × Bytes)
+  | [] => .err
+  | b :: r => .ok (b, r)
+
+/-- the block header shared by array.go / map.go Read: returns the item count of the block.
+`count = -count` wraps for MinInt64, leaving it negative: no iterations. -/
 def blockCount (count : Int) (r : Bytes) : Outcome (Nat × Bytes) :=
-  if count < 0 then
-    -- count = -count (wraps for MinInt64, leaving it negative: no iterations)
+  if count < 0 then do
+    let (_, r') ← rdVarint r
     let c := wrap64 (-count)
-    match rdVarint r with
-    | .ok (_, r') => .ok ((if c < 0 then 0 else c.toNat), r')
-    | .err => .err
-    | .panic => .panic | .stuck => .stuck | .fuel => .fuel
+    pure ((if c < 0 then 0 else c.toNat), r')
   else .ok (count.toNat, r)
+
+/-- the codec embedded in a `null.*` wrapper codec -/
+def nullInner : NullKind → Codec
+  | .int => .int 64 false | .bool => .bool false | .double => .double false
+  | .float => .float false | .string => .string false | .time => .timeString
 
 section
 variable (env : Env)
@@ -183,134 +227,98 @@ def read : Nat → Codec → Bytes → GoVal → Outcome (GoVal × Bytes)
   | fuel + 1, c, bs, dst =>
     match c with
     | .null => .ok (dst, bs)
-    | .bool _ =>
-      match bs with
-      | [] => .err
-      | b :: r => .ok (.bool (b != 0), r)
-    | .int w _ =>
-      match readInt w bs with
-      | .ok (v, r) => .ok (.int v, r)
-      | .error _ => .err
-    | .float _ =>
-      match next 4 bs with
-      | .ok (b, r) => .ok (.f32 (getLE b), r)
-      | .err => .err | .panic => .panic | .stuck => .stuck | .fuel => .fuel
-    | .double _ =>
-      match next 8 bs with
-      | .ok (b, r) => .ok (.f64 (getLE b), r)
-      | .err => .err | .panic => .panic | .stuck => .stuck | .fuel => .fuel
-    | .f32double _ =>
-      match next 8 bs with
-      | .ok (b, r) => .ok (.f32 (env.narrow (getLE b)), r)
-      | .err => .err | .panic => .panic | .stuck => .stuck | .fuel => .fuel
-    | .bytes _ =>
-      match rdVarint bs with
-      | .ok (l, r) =>
-        if l = 0 then .ok (dst, r) else
-        match next l r with
-        | .ok (b, r') => .ok (.bytes b, r')
-        | .err => .err | .panic => .panic | .stuck => .stuck | .fuel => .fuel
-      | .err => .err | .panic => .panic | .stuck => .stuck | .fuel => .fuel
-    | .string _ =>
-      match rdVarint bs with
-      | .ok (l, r) =>
-        if l < 0 then .err else
-        match next l r with
-        | .ok (b, r') => .ok (.str b, r')
-        | .err => .err | .panic => .panic | .stuck => .stuck | .fuel => .fuel
-      | .err => .err | .panic => .panic | .stuck => .stuck | .fuel => .fuel
-    | .fixed n =>
-      match next n bs with
-      | .ok (b, r) => .ok (.fixed b, r)
-      | .err => .err | .panic => .panic | .stuck => .stuck | .fuel => .fuel
+    | .bool _ => do
+      let (b, r) ← rdByte bs
+      pure (.bool (b != 0), r)
+    | .int w _ => do
+      let (v, r) ← rdInt w bs
+      pure (.int v, r)
+    | .float _ => do
+      let (b, r) ← next 4 bs
+      pure (.f32 (getLE b), r)
+    | .double _ => do
+      let (b, r) ← next 8 bs
+      pure (.f64 (getLE b), r)
+    | .f32double _ => do
+      let (b, r) ← next 8 bs
+      pure (.f32 (env.narrow (getLE b)), r)
+    | .bytes _ => do
+      let (l, r) ← rdVarint bs
+      if l = 0 then pure (dst, r) else do
+        let (b, r') ← next l r
+        pure (.bytes b, r')
+    | .string _ => do
+      let (l, r) ← rdVarint bs
+      if l < 0 then .err else do
+        let (b, r') ← next l r
+        pure (.str b, r')
+    | .fixed n => do
+      let (b, r) ← next n bs
+      pure (.fixed b, r)
     | .array item _ =>
       match dst with
-      | .slice items =>
-        match readArrayBlocks fuel item bs items with
-        | .ok (items', r) => .ok (.slice items', r)
-        | .err => .err | .panic => .panic | .stuck => .stuck | .fuel => .fuel
+      | .slice items => do
+        let (items', r) ← readArrayBlocks fuel item bs items
+        pure (.slice items', r)
       | _ => .stuck
     | .map val _ =>
       match dst with
-      | .map _ ks vs =>
-        match readMapBlocks fuel val bs ks vs with
-        | .ok ((ks', vs'), r) => .ok (.map false ks' vs', r)
-        | .err => .err | .panic => .panic | .stuck => .stuck | .fuel => .fuel
+      | .map _ ks vs => do
+        let ((ks', vs'), r) ← readMapBlocks fuel val bs ks vs
+        pure (.map false ks' vs', r)
       | _ => .stuck
     | .pointer c' =>
       match dst with
-      | .ptr none =>
-        match read fuel c' bs (Codec.zero env c') with
-        | .ok (v, r) => .ok (.ptr (some v), r)
-        | .err => .err | .panic => .panic | .stuck => .stuck | .fuel => .fuel
-      | .ptr (some x) =>
-        match read fuel c' bs x with
-        | .ok (v, r) => .ok (.ptr (some v), r)
-        | .err => .err | .panic => .panic | .stuck => .stuck | .fuel => .fuel
+      | .ptr none => do
+        let (v, r) ← read fuel c' bs (Codec.zero env c')
+        pure (.ptr (some v), r)
+      | .ptr (some x) => do
+        let (v, r) ← read fuel c' bs x
+        pure (.ptr (some v), r)
       | _ => .stuck
     | .record _ codecs targets =>
       match dst with
-      | .struct fs =>
-        match readFields fuel codecs targets bs fs with
-        | .ok (fs', r) => .ok (.struct fs', r)
-        | .err => .err | .panic => .panic | .stuck => .stuck | .fuel => .fuel
+      | .struct fs => do
+        let (fs', r) ← readFields fuel codecs targets bs fs
+        pure (.struct fs', r)
       | _ => .stuck
-    | .union cs =>
-      match rdVarint bs with
-      | .ok (idx, r) =>
-        if idx < 0 ∨ idx ≥ cs.length then .err else
+    | .union cs => do
+      let (idx, r) ← rdVarint bs
+      if idx < 0 ∨ idx ≥ cs.length then .err else
         match cs[idx.toNat]? with
         | some c' => read fuel c' r dst
         | none => .panic
-      | .err => .err | .panic => .panic | .stuck => .stuck | .fuel => .fuel
-    | .unionOne c' nonNull =>
-      match bs with
-      | [] => .err
-      | b :: r =>
-        let index := b.toNat / 2
-        if index ≥ 2 then .err
-        else if index = nonNull then read fuel c' r dst
-        else .ok (dst, r)
-    | .unionNullString _ nonNull =>
-      match bs with
-      | [] => .err
-      | b :: r =>
-        let index := b.toNat / 2
-        if index ≥ 2 then .err
-        else if index = nonNull then read fuel (.string false) r dst
-        else .ok (dst, r)
-    | .timeString =>
-      match rdVarint bs with
-      | .ok (l, r) =>
-        if l = 0 then .ok (dst, r) else
-        match next l r with
-        | .ok (b, r') =>
-          match env.parseTime b with
-          | some t => .ok (.time t, r')
-          | none => .err
-        | .err => .err | .panic => .panic | .stuck => .stuck | .fuel => .fuel
-      | .err => .err | .panic => .panic | .stuck => .stuck | .fuel => .fuel
-    | .timeLong mult =>
-      match readInt 64 bs with
-      | .ok (v, r) => .ok (.time (env.ofNanos (wrap64 (v * mult))), r)
-      | .error _ => .err
-    | .date =>
-      match readInt 32 bs with
-      | .ok (v, r) => .ok (.time (env.ofDays v), r)
-      | .error _ => .err
-    | .nullw k =>
-      -- `Valid = true` is stored first, then the embedded codec reads the payload field
-      let inner : Codec := match k with
-        | .int => .int 64 false | .bool => .bool false | .double => .double false
-        | .float => .float false | .string => .string false | .time => .timeString
+    | .unionOne c' nonNull => do
+      let (b, r) ← rdByte bs
+      if b.toNat / 2 ≥ 2 then .err
+      else if b.toNat / 2 = nonNull then read fuel c' r dst
+      else pure (dst, r)
+    | .unionNullString _ nonNull => do
+      let (b, r) ← rdByte bs
+      if b.toNat / 2 ≥ 2 then .err
+      else if b.toNat / 2 = nonNull then read fuel (.string false) r dst
+      else pure (dst, r)
+    | .timeString => do
+      let (l, r) ← rdVarint bs
+      if l = 0 then pure (dst, r) else do
+        let (b, r') ← next l r
+        match env.parseTime b with
+        | some t => pure (.time t, r')
+        | none => .err
+    | .timeLong mult => do
+      let (v, r) ← rdInt 64 bs
+      pure (.time (env.ofNanos (wrap64 (v * mult))), r)
+    | .date => do
+      let (v, r) ← rdInt 32 bs
+      pure (.time (env.ofDays v), r)
+    | .nullw k => do
+      -- `Valid = true` is stored, then the embedded codec reads the payload field
       let dstInner : GoVal := match dst with | .nullw _ x => x | x => x
-      match read fuel inner bs dstInner with
-      | .ok (v, r) =>
-        let v' := match k, v with
-          | .float, .f32 b => .f64 (env.widen b)
-          | _, x => x
-        .ok (.nullw true v', r)
-      | .err => .err | .panic => .panic | .stuck => .stuck | .fuel => .fuel
+      let (v, r) ← read fuel (nullInner k) bs dstInner
+      let v' := match k, v with
+        | .float, .f32 b => .f64 (env.widen b)
+        | _, x => x
+      pure (.nullw true v', r)
     | .custom id =>
       match (env.custom id).read bs with
       | some (v, r) => .ok (v, r)
@@ -321,92 +329,58 @@ def readFields : Nat → List Codec → List (Option Nat) → Bytes → List GoV
   | 0, _, _, _, _ => .fuel
   | _ + 1, [], _, bs, fs => .ok (fs, bs)
   | _ + 1, _ :: _, [], _, _ => .stuck
-  | fuel + 1, c :: cs, t :: ts, bs, fs =>
-    match t with
-    | none =>
-      match skip fuel c bs with
-      | .ok r => readFields fuel cs ts r fs
-      | .err => .err | .panic => .panic | .stuck => .stuck | .fuel => .fuel
-    | some i =>
-      match fs[i]? with
-      | none => .stuck
-      | some cur =>
-        match read fuel c bs cur with
-        | .ok (v, r) => readFields fuel cs ts r (listSet fs i v)
-        | .err => .err | .panic => .panic | .stuck => .stuck | .fuel => .fuel
+  | fuel + 1, c :: cs, none :: ts, bs, fs => do
+    let r ← skip fuel c bs
+    readFields fuel cs ts r fs
+  | fuel + 1, c :: cs, some i :: ts, bs, fs =>
+    match fs[i]? with
+    | none => .stuck
+    | some cur => do
+      let (v, r) ← read fuel c bs cur
+      readFields fuel cs ts r (listSet fs i v)
 
 /-- the block loop of `arrayCodec.Read` (array.go:19); `acc` is the destination slice so far -/
 def readArrayBlocks : Nat → Codec → Bytes → List GoVal → Outcome (List GoVal × Bytes)
   | 0, _, _, _ => .fuel
-  | fuel + 1, item, bs, acc =>
-    match rdVarint bs with
-    | .ok (count, r) =>
-      if count = 0 then .ok (acc, r) else
-      match blockCount count r with
-      | .ok (n, r') =>
-        match readItems fuel item n r' acc with
-        | .ok (acc', r'') => readArrayBlocks fuel item r'' acc'
-        | .err => .err | .panic => .panic | .stuck => .stuck | .fuel => .fuel
-      | .err => .err | .panic => .panic | .stuck => .stuck | .fuel => .fuel
-    | .err => .err | .panic => .panic | .stuck => .stuck | .fuel => .fuel
+  | fuel + 1, item, bs, acc => do
+    let (count, r) ← rdVarint bs
+    if count = 0 then pure (acc, r) else do
+      let (n, r') ← blockCount count r
+      let (acc', r'') ← readItems fuel item n r' acc
+      readArrayBlocks fuel item r'' acc'
 
 def readItems : Nat → Codec → Nat → Bytes → List GoVal → Outcome (List GoVal × Bytes)
   | 0, _, _, _, _ => .fuel
   | _ + 1, _, 0, bs, acc => .ok (acc, bs)
-  | fuel + 1, item, n + 1, bs, acc =>
-    match read fuel item bs (Codec.zero env item) with
-    | .ok (v, r) => readItems fuel item n r (acc ++ [v])
-    | .err => .err | .panic => .panic | .stuck => .stuck | .fuel => .fuel
+  | fuel + 1, item, n + 1, bs, acc => do
+    let (v, r) ← read fuel item bs (Codec.zero env item)
+    readItems fuel item n r (acc ++ [v])
 
 /-- the block loop of `MapCodec.Read` (map.go:24) -/
 def readMapBlocks : Nat → Codec → Bytes → List Bytes → List GoVal → Outcome ((List Bytes × List GoVal) × Bytes)
   | 0, _, _, _, _ => .fuel
-  | fuel + 1, val, bs, ks, vs =>
-    match rdVarint bs with
-    | .ok (count, r) =>
-      if count = 0 then .ok ((ks, vs), r) else
-      match blockCount count r with
-      | .ok (n, r') =>
-        match readMapItems fuel val n r' ks vs with
-        | .ok ((ks', vs'), r'') => readMapBlocks fuel val r'' ks' vs'
-        | .err => .err | .panic => .panic | .stuck => .stuck | .fuel => .fuel
-      | .err => .err | .panic => .panic | .stuck => .stuck | .fuel => .fuel
-    | .err => .err | .panic => .panic | .stuck => .stuck | .fuel => .fuel
+  | fuel + 1, val, bs, ks, vs => do
+    let (count, r) ← rdVarint bs
+    if count = 0 then pure ((ks, vs), r) else do
+      let (n, r') ← blockCount count r
+      let ((ks', vs'), r'') ← readMapItems fuel val n r' ks vs
+      readMapBlocks fuel val r'' ks' vs'
 
 def readMapItems : Nat → Codec → Nat → Bytes → List Bytes → List GoVal → Outcome ((List Bytes × List GoVal) × Bytes)
   | 0, _, _, _, _, _ => .fuel
   | _ + 1, _, 0, bs, ks, vs => .ok ((ks, vs), bs)
-  | fuel + 1, val, n + 1, bs, ks, vs =>
+  | fuel + 1, val, n + 1, bs, ks, vs => do
     -- key: StringCodec.Read
-    match rdVarint bs with
-    | .ok (l, r) =>
-      if l < 0 then .err else
-      match next l r with
-      | .ok (k, r') =>
-        match read fuel val r' (Codec.zero env val) with
-        | .ok (v, r'') =>
-          let (ks', vs') := mapAssign k v ks vs
-          readMapItems fuel val n r'' ks' vs'
-        | .err => .err | .panic => .panic | .stuck => .stuck | .fuel => .fuel
-      | .err => .err | .panic => .panic | .stuck => .stuck | .fuel => .fuel
-    | .err => .err | .panic => .panic | .stuck => .stuck | .fuel => .fuel
+    let (l, r) ← rdVarint bs
+    if l < 0 then .err else do
+      let (k, r') ← next l r
+      let (v, r'') ← read fuel val r' (Codec.zero env val)
+      readMapItems fuel val n r'' (mapAssign k v ks vs).1 (mapAssign k v ks vs).2
 
 /-- `Codec.Skip(r)` -/
 def skip : Nat → Codec → Bytes → Outcome Bytes
   | 0, _, _ => .fuel
   | fuel + 1, c, bs =>
-    let skipN (l : Int) (bs : Bytes) : Outcome Bytes :=
-      match next l bs with
-      | .ok (_, r) => .ok r
-      | .err => .err | .panic => .panic | .stuck => .stuck | .fuel => .fuel
-    let skipVar (bs : Bytes) : Outcome Bytes :=
-      match rdVarint bs with
-      | .ok (_, r) => .ok r
-      | .err => .err | .panic => .panic | .stuck => .stuck | .fuel => .fuel
-    let skipLen (bs : Bytes) : Outcome Bytes :=
-      match rdVarint bs with
-      | .ok (l, r) => skipN l r
-      | .err => .err | .panic => .panic | .stuck => .stuck | .fuel => .fuel
     match c with
     | .null => .ok bs
     | .bool _ => skipN 1 bs
@@ -419,30 +393,22 @@ def skip : Nat → Codec → Bytes → Outcome Bytes
     | .map val _ => skipBlocks fuel true val bs
     | .pointer c' => skip fuel c' bs
     | .record _ codecs _ => skipFields fuel codecs bs
-    | .union cs =>
-      match rdVarint bs with
-      | .ok (idx, r) =>
-        if idx < 0 ∨ idx ≥ cs.length then .err else
+    | .union cs => do
+      let (idx, r) ← rdVarint bs
+      if idx < 0 ∨ idx ≥ cs.length then .err else
         match cs[idx.toNat]? with
         | some c' => skip fuel c' r
         | none => .panic
-      | .err => .err | .panic => .panic | .stuck => .stuck | .fuel => .fuel
-    | .unionOne c' nonNull =>
-      match bs with
-      | [] => .err
-      | b :: r =>
-        let index := b.toNat / 2
-        if index ≥ 2 then .err
-        else if index = nonNull then skip fuel c' r
-        else .ok r
-    | .unionNullString _ nonNull =>
-      match bs with
-      | [] => .err
-      | b :: r =>
-        let index := b.toNat / 2
-        if index ≥ 2 then .err
-        else if index = nonNull then skipLen r
-        else .ok r
+    | .unionOne c' nonNull => do
+      let (b, r) ← rdByte bs
+      if b.toNat / 2 ≥ 2 then .err
+      else if b.toNat / 2 = nonNull then skip fuel c' r
+      else pure r
+    | .unionNullString _ nonNull => do
+      let (b, r) ← rdByte bs
+      if b.toNat / 2 ≥ 2 then .err
+      else if b.toNat / 2 = nonNull then skipLen r
+      else pure r
     | .timeString => skipLen bs
     | .timeLong _ | .date => skipVar bs
     | .nullw k =>
@@ -460,51 +426,32 @@ def skip : Nat → Codec → Bytes → Outcome Bytes
 def skipFields : Nat → List Codec → Bytes → Outcome Bytes
   | 0, _, _ => .fuel
   | _ + 1, [], bs => .ok bs
-  | fuel + 1, c :: cs, bs =>
-    match skip fuel c bs with
-    | .ok r => skipFields fuel cs r
-    | .err => .err | .panic => .panic | .stuck => .stuck | .fuel => .fuel
+  | fuel + 1, c :: cs, bs => do
+    let r ← skip fuel c bs
+    skipFields fuel cs r
 
 /-- block loop of `arrayCodec.Skip` / `MapCodec.Skip`: a negative count is followed by the block's
 byte size, which is skipped in one step -/
 def skipBlocks : Nat → Bool → Codec → Bytes → Outcome Bytes
   | 0, _, _, _ => .fuel
-  | fuel + 1, keyed, item, bs =>
-    match rdVarint bs with
-    | .ok (count, r) =>
-      if count = 0 then .ok r else
-      if count < 0 then
-        match rdVarint r with
-        | .ok (size, r') =>
-          match next size r' with
-          | .ok (_, r'') => skipBlocks fuel keyed item r''
-          | .err => .err | .panic => .panic | .stuck => .stuck | .fuel => .fuel
-        | .err => .err | .panic => .panic | .stuck => .stuck | .fuel => .fuel
-      else
-        match skipItems fuel keyed item count.toNat r with
-        | .ok r' => skipBlocks fuel keyed item r'
-        | .err => .err | .panic => .panic | .stuck => .stuck | .fuel => .fuel
-    | .err => .err | .panic => .panic | .stuck => .stuck | .fuel => .fuel
+  | fuel + 1, keyed, item, bs => do
+    let (count, r) ← rdVarint bs
+    if count = 0 then pure r
+    else if count < 0 then do
+      let (size, r') ← rdVarint r
+      let r'' ← skipN size r'
+      skipBlocks fuel keyed item r''
+    else do
+      let r' ← skipItems fuel keyed item count.toNat r
+      skipBlocks fuel keyed item r'
 
 def skipItems : Nat → Bool → Codec → Nat → Bytes → Outcome Bytes
   | 0, _, _, _, _ => .fuel
   | _ + 1, _, _, 0, bs => .ok bs
-  | fuel + 1, keyed, item, n + 1, bs =>
-    let afterKey : Outcome Bytes :=
-      if keyed then
-        match rdVarint bs with
-        | .ok (l, r) =>
-          match next l r with
-          | .ok (_, r') => .ok r'
-          | .err => .err | .panic => .panic | .stuck => .stuck | .fuel => .fuel
-        | .err => .err | .panic => .panic | .stuck => .stuck | .fuel => .fuel
-      else .ok bs
-    match afterKey with
-    | .ok r =>
-      match skip fuel item r with
-      | .ok r' => skipItems fuel keyed item n r'
-      | .err => .err | .panic => .panic | .stuck => .stuck | .fuel => .fuel
-    | .err => .err | .panic => .panic | .stuck => .stuck | .fuel => .fuel
+  | fuel + 1, keyed, item, n + 1, bs => do
+    let r ← if keyed then skipLen bs else pure bs
+    let r' ← skip fuel item r
+    skipItems fuel keyed item n r'
 end
 
 /-! ### Omit / Write (structural in the codec) -/
